@@ -254,3 +254,61 @@ Definition o_strats_after (r : res fgame) (m : method) (draw : @oracle FNum) (p 
       o_ok [OL (map (fun ri => ofl (@strat FNum ri)) (fst st)); OL (map (fun ri => ofl (@strat FNum ri)) (snd st))]
   | _, _ => o_skip
   end.
+
+(** ** The binary's pipeline ([Cli.v]) *)
+From Cfr.theories Require Import Cli.
+
+Definition fenode := @enode FNum.
+Definition fjnode := @jnode FNum.
+Definition ET (oid : N) (p1 p2 : float) : fenode := @ETerm FNum oid (p1, p2).
+Definition EC (info : N) (acts : list (N * float * fenode)) (oid : N) (pay : option (float * float)) : fenode :=
+  @EChance FNum info acts oid pay.
+Definition EP (pl : bool) (info : N) (name : option N) (acts : list (N * fenode)) (oid : N)
+           (pay : option (float * float)) : fenode := @EPlayer FNum pl info name acts oid pay.
+Definition JT (x : float) : fjnode := @JTerm FNum x.
+Definition JC (info : option N) (outs : list (N * (float * fjnode))) : fjnode := @JChance FNum info outs.
+Definition JP (pl : bool) (info : N) (acts : list (N * fjnode)) : fjnode := @JPlayer FNum pl info acts.
+
+Definition reject_code (r : reject) : N :=
+  match r with
+  | RDuplicateInfosets => 100 | RNonFinite => 101 | RNotConstantSum => 102
+  | RGame e => gerr_code e
+  end%N.
+
+Definition numname_of (tab : list (N * N)) : N -> N :=
+  fun k => match alookup k tab with Some n => n | None => 0%N end.
+
+Definition f_gambit_tree (numnames : list (N * N)) (root : fenode) : loaded (fgnode * float) :=
+  @gambit_tree FNum (numname_of numnames) root.
+
+(** the tree handed to [from_root] (a rejected file yields a tree [from_root] refuses) and the constant *)
+Definition tree_of_loaded (l : loaded (fgnode * float)) : fgnode :=
+  match l with Loaded (t, _) => t | Rejected _ => FT nan end.
+Definition sum_of_loaded (l : loaded (fgnode * float)) : float :=
+  match l with Loaded (_, s) => s | Rejected _ => nan end.
+Definition o_loaded (l : loaded (fgnode * float)) : out :=
+  match l with
+  | Loaded (t, s) =>
+      match f_from_root t with
+      | Ok _ => o_ok [OF s]
+      | Err e => o_err (gerr_code e)
+      end
+  | Rejected r => o_err (reject_code r)
+  end.
+
+Definition f_json_tree (j : fjnode) : fgnode := @json_to_gnode FNum j.
+
+Definition o_named_plain (l : list (N * list (N * float))) : out :=
+  OL (map (fun e : N * list (N * float) =>
+             OL [ON (fst e); OL (map (fun ap : N * float => OL [ON (fst ap); OF (snd ap)]) (snd e))]) l).
+
+(** the [Output] object for a solved profile *)
+Definition o_cli (r : res fgame) (sum clip : float) (p : option prof) : out :=
+  match r, p with
+  | Ok g, Some p =>
+      let o := @cli_choose FNum g sum clip p in
+      o_ok [OF (o_regret o); OF (o_util1 o); OF (o_util2 o); OF (o_reg1 o); OF (o_reg2 o); OB (o_pruned o);
+            o_named_plain (@printed_strategy FNum g true (o_prof o));
+            o_named_plain (@printed_strategy FNum g false (o_prof o))]
+  | _, _ => o_skip
+  end.
